@@ -155,6 +155,30 @@ func ruleTagFormat(c *Ctx) {
 			}
 		}
 		c.Oblige("T.tagfmt", good, pos, "plenccore."+name, name+": | wiretype", "the low bits of the tag are the wire type parameter, OR-ed with the shifted index", nil)
+		// the tag is built at full width: an index up to 2^29-1 shifted by 3 needs 32 bits and must not be
+		// sign-extended - no integer conversion in the function narrows its operand (C18-r15-m1)
+		if f != nil {
+			sz := types.StdSizes{WordSize: 8, MaxAlign: 8}
+			var narrowing []string
+			for _, b := range f.Blocks {
+				for _, in := range b.Instrs {
+					cv, ok := in.(*ssa.Convert)
+					if !ok {
+						continue
+					}
+					sb, ok1 := cv.X.Type().Underlying().(*types.Basic)
+					db, ok2 := cv.Type().Underlying().(*types.Basic)
+					if !ok1 || !ok2 || sb.Info()&types.IsInteger == 0 || db.Info()&types.IsInteger == 0 {
+						continue
+					}
+					if sz.Sizeof(db) < sz.Sizeof(sb) {
+						narrowing = append(narrowing, fmt.Sprintf("%s -> %s at %s", sb.Name(), db.Name(), p.pos(cv.Pos())))
+					}
+				}
+			}
+			c.Oblige("T.tagfmt", len(narrowing) == 0, pos, "plenccore."+name, name+": built at full width",
+				"index<<3 | wiretype must be computed without narrowing the index (a 29-bit index shifted by 3 does not fit 31 bits; a narrower signed type sign-extends): "+strings.Join(narrowing, "; "), nil)
+		}
 	}
 	// the three tag functions are the varint functions applied to the tag value: every byte
 	// is written, sized or read by AppendVarUint / SizeVarUint / ReadVarUint (whose agreement
